@@ -101,6 +101,12 @@ pub fn rt_edge_1k_image() -> ImageSet {
     filled_image_geo("G10w-rt-edge", "rt-edge-1k", &g10_wide(136), 128 * 128 - 2)
 }
 
+/// as rt_edge_image(), but the virtual size (2 MiB) equals what the one-cluster refcount table covers:
+/// a grown table holds more entries than the virtual size alone suggests
+pub fn rt_edge_tight_image() -> ImageSet {
+    filled_image("G9w64-rt-edge", "rt-edge-tight", 64, 4094)
+}
+
 /// refcount blocks 0..62 exist and are full but for two clusters: the next allocations create
 /// refcount block 63, the last entry of the refcount table's first (only) 512-byte block
 pub fn rb63_edge_image() -> ImageSet {
@@ -190,6 +196,7 @@ pub fn find_extra_image(name: &str) -> Option<ImageSet> {
         "G9w-rt-edge" => Some(rt_edge_image()),
         "G9w-rb63-edge" => Some(rb63_edge_image()),
         "G10w-rt-edge" => Some(rt_edge_1k_image()),
+        "G9w64-rt-edge" => Some(rt_edge_tight_image()),
         "GF-filled" => Some(gf_filled_image()),
         "GF-holes" => Some(gf_holes_image()),
         "G9w-short-l1" => Some(short_l1_image()),
